@@ -41,6 +41,11 @@ type Inst struct {
 	// Pad spells the numerals of this instance's values, meter and bpm with that many leading zeros in the YAML (the same
 	// numbers: decimal numerals do not change value with leading zeros); Pad < 0 writes the bpm as a quoted string
 	Pad int `json:",omitempty"`
+	// MetaDecoy adds free metadata whose names are those of settings (meta: {key: F#, bpm: "77", vel: pp, mtr: 7/8}): in an
+	// instances document the settings are the fields of the instance, a free entry called "key" is just a text nobody reads
+	MetaDecoy bool `json:",omitempty"`
+	// Style (on the first instance) forces a YAML style of restyleYAML (4..7) for the whole document
+	Style int `json:",omitempty"`
 }
 
 type Doc []Inst
@@ -135,6 +140,9 @@ func (d Doc) YAML() []byte {
 		if in.Mrk != "" {
 			meta["mrk"] = in.Mrk
 		}
+		if in.MetaDecoy {
+			meta["key"], meta["bpm"], meta["vel"], meta["mtr"] = "F#", "77", "pp", "7/8"
+		}
 		if len(meta) > 0 {
 			m["meta"] = meta
 		}
@@ -144,16 +152,23 @@ func (d Doc) YAML() []byte {
 	if err != nil {
 		panic(err)
 	}
-	return restyleYAML(b, list)
+	force := 0
+	if len(d) > 0 {
+		force = d[0].Style
+	}
+	return restyleYAML(b, list, force)
 }
 
 // restyleYAML re-writes a document in another YAML style that denotes the same data, chosen by a hash of the document:
 // flow mappings, CRLF line ends with a document marker and comments, keys in reverse order with integer durations as bare
 // numbers, anchors and aliases for repeated duration lists. Half of the documents keep the library's default style.
-func restyleYAML(b []byte, data any) []byte {
+func restyleYAML(b []byte, data any, force int) []byte {
 	h := fnv.New32a()
 	h.Write(b)
 	sel := mix32(h.Sum32()) % 8
+	if force >= 4 && force <= 7 {
+		sel = uint32(force)
+	}
 	if sel < 4 {
 		return b
 	}
@@ -413,6 +428,9 @@ func randomDoc(rng *rand.Rand, o GenOpt) Doc {
 			if rng.Float64() < o.TextP/2 {
 				in.Mrk = o.Texts[rng.Intn(len(o.Texts))]
 			}
+		}
+		if rng.Intn(16) == 0 {
+			in.MetaDecoy = true
 		}
 		switch rng.Intn(16) { // the same numbers spelled with leading zeros / the bpm as a quoted string
 		case 0, 1:
